@@ -84,6 +84,38 @@ def run(res, proofs_ok, proofs_why):
         res.violation({"property": "C04", "kind": "input", "case": fbad[0], "others": [b["file"] for b in fbad[1:5]],
                        "predicate": "a segment that was valid before the restart is taken over in place, never emptied or re-created",
                        "how_to_replay": "./check C16 --replay <this file>"})
+    # ... and until that first publication nobody is handed anything: a daemon that has started over a file cut
+    # inside its header (whatever the bytes that are left say) has laid the segment out anew, and a client that
+    # tries to attach now is told "not initialised" - it is not given a record nobody published
+    import os, shutil
+    root = os.path.join(c.BUILD, "scratch", "c04-wrn-%d" % os.getpid())
+    shutil.rmtree(root, ignore_errors=True)
+    os.makedirs(root)
+    wl, wmeta = [], []
+    rngw = random.Random(res.seed * 17 + 4)
+    for n in range(0, 16):
+        for g in (2, 4, 260, 65534, 7):
+            pth = os.path.join(root, "cut%d-%d" % (n, g))
+            with open(pth, "wb") as fh:
+                fh.write((F.header(gen=g) + F.record(F.rand_record(rngw)))[:n])
+            wl.append("wrn %s 1700000000 0 500 0" % pth)
+            wmeta.append((n, g))
+    wouts = c.run_lines_hang_aware(binary, wl, "W:hang")
+    shutil.rmtree(root, ignore_errors=True)
+    wbad = []
+    for (n, g), ln, o in zip(wmeta, wl, wouts):
+        res.evaluations += 1
+        res.count("a client attaching after a restart over a file cut inside its header, before the first publication")
+        f = dict(x.split(":", 1) for x in o.split())
+        if f.get("W") != "ok" or F.canon_err(f.get("K", "")) != "notinit:0:":
+            wbad.append({"file": "a segment with generation %d cut to %d bytes" % (g, n), "file_length": n, "impl": o,
+                         "why": ["the daemon started over this file and has not published yet; a client attaching now got %s (documented: the segment is laid out anew, "
+                                 "version and generation 0 - not initialised - until the first publication)" % o]})
+    res.oblige("a segment laid out anew is not initialised for clients until the first publication (%d files cut inside the header)" % len(wl), not wbad)
+    if wbad:
+        res.violation({"property": "C04", "kind": "input", "case": wbad[0], "others": [b["file"] for b in wbad[1:5]],
+                       "predicate": "a segment that was left unusable is repaired so that new clients can attach after the first publication (and are handed nothing before it)",
+                       "how_to_replay": "./check C04"})
     ok, log = _shm.current_obligation(cfg, "C04", BODY)
     res.oblige("Current_C04.v: safe_cfg current_cfg = true for the configuration measured from the running code; clauses (a), (b), (c) instantiated with it", ok)
     res.extra["current_cfg_coq"] = _shm.coq_cfg(cfg)
